@@ -29,7 +29,7 @@ ASSUMPTIONS = [
 ]
 DECIDING = ['bp.agent:Agent.recv_bundle', 'bp.agent:Agent._do_rx_step', 'bp.util:BundleContainer.bundle_ident',
             'bp.app.admin:Administrative._rx_route', 'bp.agent:Agent._do_fwd']
-REQUIRED_OBS = ['receives', 'repeats_ignored', 'own_source_ignored', 'first_match_decisions', 'delivered', 'forwarded', 'no_route']
+REQUIRED_OBS = ['stack_identities_checked', 'receives', 'repeats_ignored', 'own_source_ignored', 'first_match_decisions', 'delivered', 'forwarded', 'no_route']
 
 NODE = 'dtn://me/'
 DESTS = ['dtn://a/x', 'dtn://a/xy', 'dtn://a/y', 'dtn://a/', 'dtn://b/svc', 'dtn://b/svc2', 'dtn://c/q', 'ipn:5.1', 'ipn:5.10', 'ipn:50.1',
@@ -50,6 +50,8 @@ def cases(tier, seed):
     per = 40 if tier == 'thorough' else 14
     for idx in range(count):
         out.append(dict(id='hist-%d' % idx, seed=seed * 100003 + idx, count=per, long=(idx % 16 == 0)))
+    from vf import stackcases  # pylint: disable=import-outside-toplevel
+    stackcases.add_cases(out, tier, seed)
     return out
 
 
@@ -318,6 +320,9 @@ def _long_history(rng):
 
 
 def run_case(case):
+    if case.get('kind') == 'stack':
+        from vf import stackcases  # pylint: disable=import-outside-toplevel
+        return stackcases.run_block(PROPERTY_ID, case)
     rng = random.Random(case['seed'])
     obs = dict(receives=0, repeats_ignored=0, own_source_ignored=0, first_match_decisions=0, delivered=0, forwarded=0, no_route=0)
     violations = []
